@@ -46,21 +46,38 @@ def initial_state(itstart=None):
 
 
 def solve_args(f):
-    return {"f": f, "condition": Opq("cfl"), "tsave": SeqSym("tsave"), "stop": Opq("stop"), "flush": Opq("flush"),
-            "monitors": Opq("monitors"), "directives": Opq("directives")}
+    # positional roles of the driver's parameters (after self)
+    return [f, Opq("cfl"), SeqSym("tsave"), Opq("stop"), Opq("flush"), Opq("monitors"), Opq("directives")]
+
+
+def bind_params(func, f):
+    vals = solve_args(f)
+    names = func.params[1:]
+    if len(names) != len(vals):
+        raise AnalysisError("%s: expected %d parameters (f, condition, tsave, stop, flush, monitors, directives), found %s" % (func.qualname, len(vals), names))
+    return dict(zip(names, vals))
+
+
+def save_index_name(fsolve):
+    """the local used as index into the save-time sequence (3rd parameter)"""
+    tsave = fsolve.params[3]
+    names = {}
+    for n in ast.walk(fsolve.node):
+        if isinstance(n, ast.Subscript) and isinstance(n.value, ast.Name) and n.value.id == tsave and isinstance(n.slice, ast.Name):
+            names[n.slice.id] = names.get(n.slice.id, 0) + 1
+    if not names:
+        raise AnalysisError("%s: no index into the save-time list found" % fsolve.qualname)
+    return max(names, key=names.get)
 
 
 def run_prologue(proj, cls, fsolve):
     """interpret _solve from its entry to the head of the main loop"""
     drv = Driver(proj, cls)
     drv.main_loop = find_main_loop(fsolve)
+    drv.isave_name = save_index_name(fsolve)
     s, f = initial_state()
-    args = solve_args(f)
     s.env = {fsolve.params[0]: SelfRef()}
-    for pn in fsolve.params[1:]:
-        if pn not in args:
-            raise AnalysisError("%s: unexpected parameter %s" % (fsolve.qualname, pn))
-        s.env[pn] = args[pn]
+    s.env.update(bind_params(fsolve, f))
     outs = drv.block(fsolve.node.body, [s], fsolve)
     heads = [o for o in outs if o.done == "loophead"]
     others = [o for o in outs if o.done != "loophead"]
@@ -72,9 +89,9 @@ def _tsave_at(s, idx):
     return Lin.sym(Driver.seq_symbol(d, s, "tsave", idx))
 
 
-def check_invariant(s, strict, what, res, rule):
+def check_invariant(s, strict, what, res, rule, isave_name="isave"):
     """Inv: isave < nsave  =>  tsave[isave] >= Qn.time   (strict: >)"""
-    isave = s.env.get("isave")
+    isave = s.env.get(isave_name)
     qn = s.attrs.get("Qn")
     if not isinstance(isave, Lin) or not isinstance(qn, FieldObj):
         res.und(rule, "%s: isave / Qn not tracked" % what)
@@ -107,7 +124,7 @@ def generic_iteration(drv, fsolve, head):
         g.attrs["_time"] = Lin.sym("T")
         g.attrs["_nit"] = Lin.sym("n")
         g.add(Con(Lin.sym("n"), ">="))
-        g.env["isave"] = Lin.sym("i")
+        g.env[drv.isave_name] = Lin.sym("i")
         g.add(Con(Lin.sym("i"), ">="))
         g.add(Con(Lin.sym("len(tsave)"), ">="))
         for k, v in list(g.env.items()):
@@ -182,7 +199,7 @@ def analyse_solve(proj):
     else:
         res.ok("DRV-COUNT", "self._time == Qn.time at the loop head")
     # invariant established (non-strict: a save time equal to the start time is kept)
-    est = all(check_invariant(h, False, "prologue", res, "DRV-SIDESTEP-BOUNDS") for h in heads)
+    est = all(check_invariant(h, False, "prologue", res, "DRV-SIDESTEP-BOUNDS", drv.isave_name) for h in heads)
     if est:
         res.ok("DRV-SNAPSHOT", "prologue establishes tsave[isave] >= Qn.time (save times earlier than the start are skipped, a save time equal to the start is kept)")
     else:
@@ -190,7 +207,7 @@ def analyse_solve(proj):
     # the skip keeps a save time equal to the start: no head state may have skipped an equal time
     kept = True
     for h in heads:
-        isave = h.env.get("isave")
+        isave = h.env.get(drv.isave_name)
         if isinstance(isave, Lin) and isave.is_const() and isave.k >= 1:
             # skipped entries tsave[0..k-1] must be strictly earlier than the start
             for j in range(int(isave.k)):
@@ -359,7 +376,7 @@ def _iteration_rules(res, drv, fsolve, f, ends):
                 bad("DRV-IT-STAMP", "snapshot carries it = %r, expected itstart + nit" % (snap["it"],), ev[3], "snap-it")
             if len(snap["steps"]) > 1:
                 bad("DRV-SNAPSHOT", "snapshot object was stepped %d times" % len(snap["steps"]), ev[3], "snap-steps")
-        isave_end = e.env.get("isave")
+        isave_end = e.env.get(drv.isave_name)
         if not (isinstance(isave_end, Lin) and isave_end == i0 + len(snaps)):
             bad("DRV-SNAPSHOT", "isave advances by %r over an iteration that appended %d snapshots" % ((isave_end - i0) if isinstance(isave_end, Lin) else isave_end, len(snaps)), ln0, "isave-count")
         # ---- counters and ordering
@@ -390,7 +407,7 @@ def _iteration_rules(res, drv, fsolve, f, ends):
         if ces and ces[-1][1] not in names:
             bad("DRV-STOP", "the loop condition does not test the stop criteria evaluated after this step", ln0, "loop-flag")
         # ---- completeness: every save time <= current time consumed when the stop test runs
-        if not check_invariant(e, True, "iteration end", res, "DRV-SNAPSHOT"):
+        if not check_invariant(e, True, "iteration end", res, "DRV-SNAPSHOT", drv.isave_name):
             bad("DRV-SNAPSHOT", "after an iteration a save time <= the new Qn.time can remain unconsumed: it is dropped when the run stops, or reached later by a backward side step (case %s)" % e.meta_case, ln0, "inv-iteration")
         # Qn.it stamp
         want = e.attrs["_itstart"] + nit_end if isinstance(e.attrs.get("_itstart"), Lin) and isinstance(nit_end, Lin) else None
@@ -509,12 +526,9 @@ def analyse_entry_points(proj, res):
         s.heap[f.id] = f
         s.attrs.update({"monitors": Opq("self.monitors"), "modeldisc": Opq("modeldisc"), "mesh": Opq("mesh"),
                         "_nit": Lin.sym("stale_nit"), "_itstart": Lin.sym("stale_itstart"), "_cputime": Opq("stale")})
-        args = solve_args(f)
+        drv.isave_name = save_index_name(fsolve)
         s.env = {fn.params[0]: SelfRef()}
-        for pn in fn.params[1:]:
-            if pn not in args:
-                raise AnalysisError("%s: unexpected parameter %s" % (fn.qualname, pn))
-            s.env[pn] = args[pn]
+        s.env.update(bind_params(fn, f))
         outs = drv.block(fn.node.body, [s], fn)
         heads = [o for o in outs if o.done == "loophead"]
         if not heads:
